@@ -225,9 +225,9 @@ def handle (line : String) : String :=
 namespace Spec
 
 /-- first occurrences, in order -/
-def dedup : List Nat → List Nat
+def dedup {α : Type} [DecidableEq α] : List α → List α
   | [] => []
-  | x :: xs => x :: (dedup xs).filter (· ≠ x)
+  | x :: xs => x :: (dedup xs).filter (fun y => decide (y ≠ x))
 
 def nodup : List Nat → Bool
   | [] => true
